@@ -15,8 +15,8 @@ import numpy
 
 from . import tlc
 
-DT = {'b': bool, 'i': int, 'f': float}
-ARGNAMES = {1: 'a1', 2: 'a2', 3: 'a3', 4: 'a4', 5: 'a5', 6: 'a6', 7: 'a7', 8: 'a8', 9: 'a9'}
+DT = {'b': bool, 'i': int, 'f': float, 'c': complex}
+ARGNAMES = {1: 'a1', 2: 'a2', 3: 'a3', 4: 'a4', 5: 'a5', 6: 'a6', 7: 'a7', 8: 'a8', 9: 'a9', 10: 'a10', 11: 'a11', 12: 'a12', 13: 'a13'}
 
 
 def build(nodes):
@@ -31,7 +31,10 @@ def build(nodes):
             r = ev.Argument(ARGNAMES[p[0]], tuple(c(k) for k in sh), dt)
         elif op == 'Const':
             vals = [Fraction(p[2 * k], p[2 * k + 1]) for k in range(len(p) // 2)]
-            arr = numpy.array([float(v) if dt is float else (bool(v) if dt is bool else int(v)) for v in vals], dtype=dt).reshape(sh)
+            if dt is complex:   # <<re n, re d, im n, im d>> per element
+                arr = numpy.array([complex(float(re), float(im)) for re, im in zip(vals[::2], vals[1::2])], dtype=complex).reshape(sh)
+            else:
+                arr = numpy.array([float(v) if dt is float else (bool(v) if dt is bool else int(v)) for v in vals], dtype=dt).reshape(sh)
             r = ev.Constant(types.arraydata(arr))
         elif op == 'Zeros':
             r = ev.Zeros(tuple(c(k) for k in sh), dt)
@@ -54,7 +57,7 @@ def build(nodes):
         elif op == 'Power':
             r = ev.Power(A[0], A[1])
         elif op in ('Negative', 'Reciprocal', 'Absolute', 'LogicalNot', 'BoolToInt', 'IntToFloat', 'Sign',
-                    'TakeDiag', 'Diagonalize', 'Ravel', 'Determinant', 'Inverse'):
+                    'TakeDiag', 'Diagonalize', 'Ravel', 'Determinant', 'Inverse', 'FloatToComplex', 'Real', 'Imag', 'Conjugate'):
             r = getattr(ev, op)(A[0])
         elif op in ('FloorDivide', 'Mod', 'Minimum', 'Maximum', 'Equal', 'Less', 'Greater', 'Take', 'Choose', 'Polyval'):
             r = getattr(ev, op)(A[0], A[1])
@@ -68,6 +71,30 @@ def build(nodes):
             r = ev.InRange(A[0], c(p[0]))
         elif op == 'NormDim':
             r = ev.NormDim(A[0], A[1])
+        elif op == 'RangeN':
+            r = ev.Range(A[0])
+        elif op == 'InsertAxisN':
+            r = ev.InsertAxis(A[0], A[1])
+        elif op == 'SearchSorted':
+            r = ev.SearchSorted(A[0], array=A[1], sorter=A[2] if len(A) == 3 else None, side=('left', 'right')[p[0]])
+        elif op in ('ArgSort', 'UniqueMask'):
+            r = getattr(ev, op)(A[0])
+        elif op in ('UniqueInverse', 'CompressIndices'):
+            r = getattr(ev, op)(A[0], A[1])
+        elif op == 'SizesToOffsets':
+            r = ev._SizesToOffsets(A[0])
+        elif op == 'Find':
+            r = ev.Find(A[0])       # the second operand of the model node is the length Sum(BoolToInt(where)), implied here
+        elif op == 'PolyMul':
+            import nutils_poly
+            r = ev.PolyMul(A[0], A[1], tuple((nutils_poly.MulVar.Left, nutils_poly.MulVar.Right, nutils_poly.MulVar.Both)[v] for v in p))
+        elif op in ('PolyGrad', 'PolyDegree', 'Legendre'):
+            r = getattr(ev, op)(A[0], p[0])
+        elif op == 'PolyNCoeffs':
+            r = ev.PolyNCoeffs(p[0], A[0])
+        elif op == 'Einsum':
+            dec = es_decode(p)
+            r = ev.Einsum(tuple(A), tuple(tuple(q) for q in dec[1:]), tuple(dec[0]))
         elif op == 'LoopSum':
             idx = ev.loop_index('l{}'.format(p[0]), c(p[1]))
             r = ev.LoopSum(idx.loop_id, idx.length, A[0], A[0].shape)
@@ -78,6 +105,22 @@ def build(nodes):
             raise KeyError(op)
         out.append(r)
     return out
+
+
+def es_decode(p):
+    'Einsum node parameters <<Len(out), out..., rank1, idx1..., ...>> -> [out, idx1, idx2, ...] (ArraySem!EsDecode)'
+    out, pos = [], 0
+    while pos < len(p):
+        out.append(list(p[pos + 1:pos + 1 + p[pos]]))
+        pos += p[pos] + 1
+    return out
+
+
+def es_encode(out_idx, args_idx):
+    p = []
+    for q in (out_idx, *args_idx):
+        p += [len(q), *q]
+    return p
 
 
 # ---------------------------------------------------------------------------
@@ -92,7 +135,7 @@ def const_int(a):
     from nutils import evaluable as ev
     if isinstance(a, ev.Constant) and a.ndim == 0:
         return int(a.value)
-    if a.ndim or not a.isconstant or a._loops:
+    if a.ndim or not a.isconstant:      # closed expressions (also those containing complete loops) are evaluated
         raise Unsupported('non-constant length')
     lo, hi = a._intbounds
     if lo == hi:
@@ -109,10 +152,19 @@ def export(roots):
     argids = {v: k for k, v in ARGNAMES.items()}
 
     def static_shape(a):
-        return [cint(n) for n in a.shape]
+        # a non-constant (loop dependent) axis length becomes -k, k the position of the exported length node
+        out = []
+        for n in a.shape:
+            try:
+                out.append(cint(n))
+            except Unsupported:
+                if n.arguments - {x for x in n.arguments if isinstance(x, ev._LoopIndex)}:
+                    raise Unsupported('argument dependent length')
+                out.append(-visit(n))
+        return out
 
     def dtc(a):
-        return {bool: 'b', int: 'i', float: 'f'}.get(a.dtype) or _unsup('dtype {}'.format(a.dtype))
+        return {bool: 'b', int: 'i', float: 'f', complex: 'c'}.get(a.dtype) or _unsup('dtype {}'.format(a.dtype))
 
     def _unsup(msg):
         raise Unsupported(msg)
@@ -138,22 +190,29 @@ def export(roots):
                 raise Unsupported('large constant')
             p = []
             for x in v.ravel():
-                fr = Fraction(x.item()) if v.dtype.kind == 'f' else Fraction(int(x))
-                if fr.denominator > 10000 or abs(fr.numerator) > 10000:
-                    raise Unsupported('constant magnitude')
-                p += [fr.numerator, fr.denominator]
+                for y in ((x.real, x.imag) if v.dtype.kind == 'c' else (x,)):
+                    fr = Fraction(y.item()) if v.dtype.kind in 'fc' else Fraction(int(y))
+                    if fr.denominator > 10000 or abs(fr.numerator) > 10000:
+                        raise Unsupported('constant magnitude')
+                    p += [fr.numerator, fr.denominator]
             r = add('Const', [], p, a)
         elif T == 'Zeros':
             r = add('Zeros', [], [], a)
         elif T == 'Range':
-            r = add('Range', [], [cint(a.length)], a)
+            try:
+                r = add('Range', [], [cint(a.length)], a)
+            except Unsupported:
+                r = add('RangeN', [visit(a.length)], [], a)
         elif T == '_LoopIndex':
             name = str(a.loop_id)
             if not (name.startswith('l') and name[1:].isdigit()):
                 raise Unsupported('loop id ' + name)
             r = add('LoopIndex', [], [int(name[1:]), cint(a.length)], a)
         elif T == 'InsertAxis':
-            r = add('InsertAxis', [visit(a.func)], [cint(a.length)], a)
+            try:
+                r = add('InsertAxis', [visit(a.func)], [cint(a.length)], a)
+            except Unsupported:
+                r = add('InsertAxisN', [visit(a.func), visit(a.length)], [], a)
         elif T == 'Transpose':
             r = add('Transpose', [visit(a.func)], list(a.axes), a)
         elif T in ('Sum', 'Product', 'TakeDiag', 'Diagonalize', 'Ravel', 'Determinant', 'Inverse', 'Sign'):
@@ -163,7 +222,7 @@ def export(roots):
             r = add(T, [visit(f1), visit(f2)], [], a)
         elif T == 'Power':
             r = add('Power', [visit(a.func), visit(a.power)], [], a)
-        elif T in ('Negative', 'Reciprocal', 'Absolute', 'BoolToInt', 'IntToFloat'):
+        elif T in ('Negative', 'Reciprocal', 'Absolute', 'BoolToInt', 'IntToFloat', 'FloatToComplex', 'Real', 'Imag', 'Conjugate'):
             r = add(T, [visit(a.arg)], [], a)
         elif T == 'LogicalNot':
             r = add(T, [visit(a.x)], [], a)
@@ -186,9 +245,40 @@ def export(roots):
         elif T == 'NormDim':
             r = add('NormDim', [visit(a.length), visit(a.index)], [], a)
         elif T == 'Polyval':
-            if a.points_ndim != 1:
+            if a.points_ndim not in (1, 2, 3):
                 raise Unsupported('Polyval nvars')
             r = add('Polyval', [visit(a.coeffs), visit(a.points)], [], a)
+        elif T == 'PolyMul':
+            r = add('PolyMul', [visit(a.coeffs_left), visit(a.coeffs_right)], [{'Left': 0, 'Right': 1, 'Both': 2}[repr(v).split('.')[-1]] for v in a.vars], a)
+        elif T == 'PolyGrad':
+            r = add('PolyGrad', [visit(a.coeffs)], [a.nvars], a)
+        elif T == 'PolyDegree':
+            r = add('PolyDegree', [visit(a.ncoeffs)], [a.nvars], a)
+        elif T == 'PolyNCoeffs':
+            r = add('PolyNCoeffs', [visit(a.degree)], [a.nvars], a)
+        elif T == 'Legendre':
+            r = add('Legendre', [visit(a.x)], [a.degree], a)
+        elif T == 'SearchSorted':
+            r = add('SearchSorted', [visit(a.arg), visit(a.array)] + ([visit(a.sorter)] if a.sorter is not None else []), [dict(left=0, right=1)[a.side]], a)
+        elif T in ('ArgSort',):
+            r = add(T, [visit(a.array)], [], a)
+        elif T == 'UniqueMask':
+            r = add(T, [visit(a.sorted_array)], [], a)
+        elif T == 'UniqueInverse':
+            r = add(T, [visit(a.unique_mask), visit(a.sorter)], [], a)
+        elif T == '_SizesToOffsets':
+            r = add('SizesToOffsets', [visit(a.sizes)], [], a)
+        elif T == 'CompressIndices':
+            r = add(T, [visit(a.indices), visit(a.length)], [], a)
+        elif T == 'Find':
+            w = visit(a.where)
+            r = add('Find', [w, visit(a.shape[0])], [], a)
+        elif T == 'Einsum':
+            labels = sorted({i for idx in a.args_idx for i in idx})
+            if len(a.args) > 3 or len(labels) > 4:
+                raise Unsupported('large Einsum')
+            ren = {l: k for k, l in enumerate(labels)}
+            r = add('Einsum', [visit(x) for x in a.args], es_encode([ren[i] for i in a.out_idx], [[ren[i] for i in idx] for idx in a.args_idx]), a)
         elif T == 'LoopSum':
             name = str(a.loop_id)
             if not (name.startswith('l') and name[1:].isdigit()):
@@ -196,9 +286,11 @@ def export(roots):
             r = add('LoopSum', [visit(a.func)], [int(name[1:]), cint(a.length)], a)
         elif T == 'LoopConcatenate':
             name = str(a.loop_id)
-            if not (name.startswith('l') and name[1:].isdigit()) or not a.func.shape[-1].isconstant:
+            if not (name.startswith('l') and name[1:].isdigit()):
                 raise Unsupported('loop concatenate')
-            r = add('LoopConcat', [visit(a.func)], [int(name[1:]), cint(a.length), cint(a.func.shape[-1])], a)
+            # chunk size 0: element dependent (the chunks are laid out consecutively in loop order, as loop_concatenate builds them)
+            chunk = cint(a.func.shape[-1]) if a.func.shape[-1].isconstant else 0
+            r = add('LoopConcat', [visit(a.func)], [int(name[1:]), cint(a.length), chunk], a)
         elif T in ('Guard',):
             r = add('Identity', [visit(a.fun)], [], a)
         elif T == '_Get':
@@ -216,23 +308,39 @@ def export(roots):
 # ---------------------------------------------------------------------------
 # environments
 
-ARGSH = {1: [2], 2: [2, 2], 3: [], 4: [3], 5: [2], 6: [2], 7: [2, 2, 2], 8: [3, 3], 9: [4]}
-ARGDT = {1: float, 2: float, 3: float, 4: float, 5: int, 6: bool, 7: float, 8: float, 9: float}
+ARGSH = {1: [2], 2: [2, 2], 3: [], 4: [3], 5: [2], 6: [2], 7: [2, 2, 2], 8: [3, 3], 9: [4], 10: [2], 11: [], 12: [2, 2], 13: [6]}
+ARGDT = {1: float, 2: float, 3: float, 4: float, 5: int, 6: bool, 7: float, 8: float, 9: float, 10: complex, 11: complex, 12: complex, 13: float}
 
-# integer data per argument id (flat); chosen to avoid ties/kinks where possible
+# integer data per argument id (flat); chosen to avoid ties/kinks where possible.  Complex arguments (10-12) carry
+# 2 * size integers: the real parts followed by the imaginary parts (ArraySem!ArgArr recognises them by that length)
 ENVS = [
-    {1: [1, 2], 2: [1, 2, 3, 5], 3: [2], 4: [1, 2, 3], 5: [1, 0], 6: [1, 0], 7: [1, 2, 3, 4, 5, 6, 7, 9], 8: [2, 1, 0, 1, 3, 1, 0, 1, 2], 9: [1, 2, 3, 4]},
-    {1: [-2, 3], 2: [2, -1, 1, 3], 3: [-3], 4: [-1, 3, 2], 5: [0, 1], 6: [0, 1], 7: [-1, 2, -3, 1, 3, -2, 2, 1], 8: [1, -2, 3, 2, 1, -1, -3, 1, 2], 9: [-2, 1, 3, -1]},
-    {1: [3, -1], 2: [-3, 1, 2, -2], 3: [-4], 4: [2, -2, 1], 5: [1, 1], 6: [1, 1], 7: [2, -1, 1, 3, -2, 1, -3, 2], 8: [-1, 3, 2, 1, -2, 3, 2, 1, -3], 9: [2, -3, -1, 4]},
+    {1: [1, 2], 2: [1, 2, 3, 5], 3: [2], 4: [1, 2, 3], 5: [1, 0], 6: [1, 0], 7: [1, 2, 3, 4, 5, 6, 7, 9], 8: [2, 1, 0, 1, 3, 1, 0, 1, 2], 9: [1, 2, 3, 4],
+     10: [1, 2, 2, -1], 11: [2, 1], 12: [1, 2, 0, 1, 1, 0, -1, 2], 13: [1, 2, -1, 3, 0, 2]},
+    {1: [-2, 3], 2: [2, -1, 1, 3], 3: [-3], 4: [-1, 3, 2], 5: [0, 1], 6: [0, 1], 7: [-1, 2, -3, 1, 3, -2, 2, 1], 8: [1, -2, 3, 2, 1, -1, -3, 1, 2], 9: [-2, 1, 3, -1],
+     10: [-1, 3, 1, 4], 11: [-1, 2], 12: [2, -1, 1, 1, 0, 1, 2, -1], 13: [-2, 1, 3, 0, -1, 2]},
+    {1: [3, -1], 2: [-3, 1, 2, -2], 3: [-4], 4: [2, -2, 1], 5: [1, 1], 6: [1, 1], 7: [2, -1, 1, 3, -2, 1, -3, 2], 8: [-1, 3, 2, 1, -2, 3, 2, 1, -3], 9: [2, -3, -1, 4],
+     10: [0, -2, -3, 1], 11: [3, -4], 12: [-1, 1, 2, 0, 2, -1, 0, 3], 13: [3, -1, 0, 2, 1, -3]},
 ]
 
 
+def argsize(a):
+    'number of integers of data of argument id a (complex: real parts, then imaginary parts)'
+    return int(numpy.prod(ARGSH[a])) * (2 if ARGDT[a] is complex else 1)
+
+
 def env_arrays(env):
-    return {ARGNAMES[k]: numpy.array(v, dtype=ARGDT[k]).reshape(ARGSH[k]) for k, v in env.items()}
+    out = {}
+    for k, v in env.items():
+        if ARGDT[k] is complex:
+            h = len(v) // 2
+            out[ARGNAMES[k]] = (numpy.array(v[:h], dtype=float) + 1j * numpy.array(v[h:], dtype=float)).reshape(ARGSH[k])
+        else:
+            out[ARGNAMES[k]] = numpy.array(v, dtype=ARGDT[k]).reshape(ARGSH[k])
+    return out
 
 
-INEXACT_OPS = {'Inverse', 'Reciprocal', 'Power'}
-DISCONTINUOUS_OPS = {'FloorDivide', 'Mod', 'Less', 'Greater', 'Equal', 'Sign'}
+INEXACT_OPS = {'Inverse', 'Reciprocal', 'Power', 'Determinant', 'Legendre'}
+DISCONTINUOUS_OPS = {'FloorDivide', 'Mod', 'Less', 'Greater', 'Equal', 'Sign', 'SearchSorted', 'ArgSort', 'UniqueMask'}
 
 
 def unstable(nodes):
@@ -242,7 +350,8 @@ def unstable(nodes):
     to rounding, which the properties explicitly allow.  Such programs are not judged against the exact model."""
     inexact = []
     for n in nodes:
-        ix = n['dt'] == 'f' and (n['op'] in INEXACT_OPS or any(inexact[d - 1] for d in n['d']))
+        ix = n['dt'] in 'fc' and (n['op'] in INEXACT_OPS or any(inexact[d - 1] for d in n['d'])
+                                  or n['op'] == 'Absolute' and nodes[n['d'][0] - 1]['dt'] == 'c')   # hypot
         if n['op'] in DISCONTINUOUS_OPS and any(inexact[d - 1] for d in n['d']):
             return True
         # comparisons produce bool/int results that depend discontinuously on inexact inputs: handled above
@@ -266,7 +375,7 @@ def _job(jid, nodes, evals, pairs=()):
     nl = nloops(nodes)
     ev = []
     for e in evals:
-        ev.append(dict(args=[e['env'].get(a, [0] * int(numpy.prod(ARGSH[a]))) for a in sorted(ARGSH)],
+        ev.append(dict(args=[e['env'].get(a, [0] * argsize(a)) for a in sorted(ARGSH)],
                        lenv=list(e.get('lenv', [0] * nl)) + [0] * (nl - len(e.get('lenv', [0] * nl))),
                        seed=list(e.get('seed', (0, 0))), node=e['node']))
     return dict(id=jid, N=N, argsh=[ARGSH[a] for a in sorted(ARGSH)], evals=ev, pairs=[dict(a=a, b=b) for a, b in pairs])
@@ -326,12 +435,43 @@ def evaluate(jobs, tag='evaldag', nproc=None, timeout=1800):
     return run_jobs('EvalDag', [_job(i, nodes, evals, pairs) for i, (nodes, evals, pairs) in enumerate(jobs)], tag, nproc, timeout)
 
 
+class Cx:
+    'exact complex number (pair of Fractions) as the model projects elements of complex arrays'
+    __slots__ = 're', 'im'
+
+    def __init__(self, re, im):
+        self.re, self.im = re, im
+
+    def __complex__(self):
+        return complex(float(self.re), float(self.im))
+
+    def __str__(self):
+        return '({}{}{}j)'.format(self.re, '+' if self.im >= 0 else '-', abs(self.im))
+
+    __repr__ = __str__
+
+
 def arr_value(proj):
-    """model array projection -> (values as Fraction ndarray(object) or None if any undefined, tangents likewise)"""
+    """model array projection -> (values as Fraction ndarray(object) or None if any undefined, tangents likewise);
+    elements of complex arrays (8 integers) become Cx"""
     sh = proj['sh']
     vals, tans = [], []
     bad = tbad = False
-    for vn, vd, tn, td in proj['v']:
+    for item in proj['v']:
+        if len(item) == 8:
+            vn, vd, tn, td, wn, wd, un, ud = item
+            if vd == 0 or wd == 0:
+                bad = True
+                vals.append(None)
+            else:
+                vals.append(Cx(Fraction(vn, vd), Fraction(wn, wd)))
+            if td == 0 or ud == 0:
+                tbad = True
+                tans.append(None)
+            else:
+                tans.append(Cx(Fraction(tn, td), Fraction(un, ud)))
+            continue
+        vn, vd, tn, td = item
         if vd == 0:
             bad = True
             vals.append(None)
@@ -357,11 +497,16 @@ def matches(model_vals, actual, dt):
     if dt in ('b', 'i'):
         exp = numpy.array([int(x) for x in model_vals.ravel()], dtype=int).reshape(model_vals.shape)
         return bool((actual.astype(int) == exp).all())
+    if dt == 'c':
+        exp = numpy.array([complex(x) for x in model_vals.ravel()], dtype=complex).reshape(model_vals.shape)
+        return bool(numpy.allclose(actual, exp, rtol=1e-9, atol=1e-12, equal_nan=False))
+    if actual.dtype.kind == 'c':
+        return False
     exp = numpy.array([float(x) for x in model_vals.ravel()], dtype=float).reshape(model_vals.shape)
     return bool(numpy.allclose(actual, exp, rtol=1e-9, atol=1e-12, equal_nan=False))
 
 
-KIND = {'b': 'b', 'i': 'i', 'f': 'f'}
+KIND = {'b': 'b', 'i': 'i', 'f': 'f', 'c': 'c'}
 
 
 def dtype_char(dtype):
